@@ -90,6 +90,23 @@ def make_pairs(rng, count):
             if not any(crafted):
                 crafted[0] = u[0]
             k = rng.choice([Fraction(1, 4), Fraction(1, 2), Fraction(3, 4), 1])
+        if crafted is None and rng.random() < 0.1:
+            # a non-EPB electricity use that takes the whole surplus of the on-site production at every step: nothing reaches the grid
+            # until the extra production, at one step, exceeds what the non-EPB use can take (k_exp = 0; some gas so that RER < 1)
+            n = rng.choice([2, 3, 12])
+            u = [gen.dy(rng, 64 * 50, 64 * 150) for _ in range(n)]
+            w = [gen.dy(rng, 64 * 100, 64 * 200) for _ in range(n)]
+            p = [a + c * Fraction(rng.randint(8, 48), 64) for a, c in zip(u, w)]
+            b = gen.Building()
+            b.n = n
+            b.add("CONSUMO", id=1, service="ILU", carrier="ELECTRICIDAD", values=u)
+            b.add("CONSUMO", id=1, service="NEPB", carrier="ELECTRICIDAD", values=w)
+            b.add("CONSUMO", id=2, service="CAL", carrier="GASNATURAL", values=[x * 3 for x in u])
+            b.add("PRODUCCION", id=3, source="EL_INSITU", values=p)
+            b.tags.add("surplus_taken_by_non_epb_use")
+            t = rng.randrange(n)
+            crafted = [(u[s] + w[s] - p[s]) + gen.dy(rng, 64, 64 * 100) if s == t else Fraction(0) for s in range(n)]
+            k = Fraction(0)
         if crafted is None:
             epflow.tiny_use(rng, b, 0.1)      # the property has no floor on the values
         user = {}
